@@ -354,7 +354,7 @@ def run_sync(ctx, out, bases, req, pending):
         out.hit(f"sync.first:{res['first'][0] if res['first'][0] == 'ok' else res['first'][1]['error']}")
         out.traces_validated += 1
         judge_sync(out, base, doc, flavour, res, excluded)
-        req.append({"op": "apply2", "dflt": L.DFLT, "graph": base.graph, "doc": doc, "doc2": renumber(doc, 20000)})
+        req.append({"op": "apply2", "mm": "gen", "graph": base.graph, "doc": doc, "doc2": renumber(doc, 20000)})
         pending.append(("sync", base, doc, flavour, res))
     out.extra["sync_documents_by_flavour"] = flav_count
     out.extra["excluded_points"] = excluded
